@@ -1504,3 +1504,156 @@ async fn d7b_torn_first_record_of_a_fresh_segment() {
 	assert_eq!(tx.get(b"k1").unwrap().as_deref(), Some(&b"v1"[..]));
 	assert_eq!(tx.get(b"k2").unwrap().as_deref(), Some(&b"v2"[..]), "D7b: commit acknowledged after recovery from a torn first record is lost");
 }
+
+// D11c: model check of the overlay cursors across reversals. For many small (committed, pending) key sets the range
+// cursor must walk the merged key list like an index into it, whatever sequence of next()/prev() is issued; the
+// history cursor must walk the list its own forward scan produces.
+#[tokio::test(flavor = "multi_thread")]
+async fn d11c_overlay_cursors_follow_the_model_across_reversals() {
+	use std::collections::BTreeMap;
+	let mut rng: u64 = 0x9e3779b97f4a7c15;
+	let mut rnd = move |n: u64| {
+		rng = rng.wrapping_mul(6364136223846793005).wrapping_add(1442695040888963407);
+		(rng >> 33) % n
+	};
+	let keys: Vec<Vec<u8>> = (b'a'..=b'h').map(|c| vec![c]).collect();
+	for round in 0..120 {
+		let d = td();
+		let opts = mk_opts(d.path().to_path_buf(), |o| { o.enable_versioning = true; o.enable_vlog = true; o.vlog_value_threshold = 0; });
+		let tree = Tree::new(Arc::clone(&opts)).unwrap();
+		let mut model: BTreeMap<Vec<u8>, Vec<u8>> = BTreeMap::new();
+		for k in &keys {
+			if rnd(2) == 0 {
+				put(&tree, k, b"snap").await;
+				model.insert(k.clone(), b"snap".to_vec());
+			}
+		}
+		if round % 3 == 0 {
+			tree.flush().unwrap();
+		}
+		let mut tx = tree.begin().unwrap();
+		for k in &keys {
+			match rnd(4) {
+				0 => {
+					tx.set(k, b"ws").unwrap();
+					model.insert(k.clone(), b"ws".to_vec());
+				}
+				1 => {
+					tx.delete(k).unwrap();
+					model.remove(k);
+				}
+				_ => {}
+			}
+		}
+		let want: Vec<Vec<u8>> = model.keys().cloned().collect();
+		// range cursor against the BTreeMap model
+		for prog in 0..6 {
+			let mut it = tx.range(&b"a"[..], &b"z"[..]).unwrap();
+			let mut trace = String::new();
+			let (mut ok, mut i): (bool, i64) = if prog % 2 == 0 {
+				trace.push_str("first ");
+				(it.seek_first().unwrap(), 0)
+			} else {
+				trace.push_str("last ");
+				(it.seek_last().unwrap(), want.len() as i64 - 1)
+			};
+			for _ in 0..14 {
+				let expect = i >= 0 && (i as usize) < want.len();
+				assert_eq!(ok, expect, "D11c range round {round}: validity after `{trace}` (model {want:?})");
+				if !ok {
+					break;
+				}
+				assert_eq!(
+					it.key().user_key(),
+					want[i as usize].as_slice(),
+					"D11c range round {round}: key after `{trace}` (model {:?})",
+					want.iter().map(|k| String::from_utf8_lossy(k).to_string()).collect::<Vec<_>>()
+				);
+				assert_eq!(it.value().unwrap(), model[&want[i as usize]], "D11c range round {round}: value after `{trace}`");
+				if rnd(2) == 0 {
+					trace.push_str("next ");
+					ok = it.next().unwrap();
+					i += 1;
+				} else {
+					trace.push_str("prev ");
+					ok = it.prev().unwrap();
+					i -= 1;
+				}
+			}
+		}
+		// history cursor against its own forward scan
+		let mut fwd: Vec<(Vec<u8>, u64, bool)> = Vec::new();
+		{
+			let mut it = tx.history(&b"a"[..], &b"z"[..]).unwrap();
+			let mut ok = it.seek_first().unwrap();
+			while ok {
+				fwd.push((it.key().user_key().to_vec(), it.key().timestamp(), it.key().is_tombstone()));
+				ok = it.next().unwrap();
+			}
+		}
+		for prog in 0..6 {
+			let mut it = tx.history(&b"a"[..], &b"z"[..]).unwrap();
+			let mut trace = String::new();
+			let (mut ok, mut i): (bool, i64) = if prog % 2 == 0 {
+				trace.push_str("first ");
+				(it.seek_first().unwrap(), 0)
+			} else {
+				trace.push_str("last ");
+				(it.seek_last().unwrap(), fwd.len() as i64 - 1)
+			};
+			for _ in 0..14 {
+				let expect = i >= 0 && (i as usize) < fwd.len();
+				assert_eq!(ok, expect, "D11c history round {round}: validity after `{trace}` (forward scan {fwd:?})");
+				if !ok {
+					break;
+				}
+				let got = (it.key().user_key().to_vec(), it.key().timestamp(), it.key().is_tombstone());
+				assert_eq!(got, fwd[i as usize], "D11c history round {round}: entry after `{trace}` (forward scan {fwd:?})");
+				if rnd(2) == 0 {
+					trace.push_str("next ");
+					ok = it.next().unwrap();
+					i += 1;
+				} else {
+					trace.push_str("prev ");
+					ok = it.prev().unwrap();
+					i -= 1;
+				}
+			}
+		}
+		drop(tx);
+		tree.close().await.unwrap();
+	}
+}
+
+// D40: an inverted range over a level with several disjoint tables panics in the k-way merge constructor
+#[tokio::test(flavor = "multi_thread")]
+async fn d40_inverted_range_over_disjoint_l1_tables_panics() {
+	let d = td();
+	let opts = mk_opts(d.path().to_path_buf(), |o| o.level_count = 3);
+	let tree = Tree::new(Arc::clone(&opts)).unwrap();
+	for g in [b'a', b'd', b'x'] {
+		for i in 0..4u8 {
+			put(&tree, &[g, b'0' + i], b"1").await;
+			tree.flush().unwrap();
+		}
+		tree.compact(Arc::new(Strategy::default())).unwrap();
+	}
+	{
+		let m = tree.core.level_manifest.read().unwrap();
+		let per_level: Vec<usize> = m.levels.get_levels().iter().map(|l| l.tables.len()).collect();
+		println!("D40 tables per level: {per_level:?}");
+		assert!(per_level.iter().skip(1).any(|&n| n >= 3), "precondition: a level >= 1 with three disjoint tables");
+	}
+	let tx = tree.begin().unwrap();
+	let r = std::panic::catch_unwind(std::panic::AssertUnwindSafe(|| match tx.range(&b"m"[..], &b"c"[..]) {
+		Ok(mut it) => it.seek_first().unwrap_or(false),
+		Err(_) => false,
+	}));
+	assert!(r.is_ok(), "D40: range(m, c) panicked");
+	assert!(!r.unwrap(), "D40: an inverted range lists nothing");
+	let r = std::panic::catch_unwind(std::panic::AssertUnwindSafe(|| match tx.history(&b"m"[..], &b"c"[..]) {
+		Ok(mut it) => it.seek_first().unwrap_or(false),
+		Err(_) => false,
+	}));
+	assert!(r.is_ok(), "D40: history(m, c) panicked");
+}
